@@ -18,4 +18,6 @@ func register(id, level string, fn func(*core.Run)) { Registry[id] = Check{level
 func init() {
 	register("C08", "exploration", C08)
 	register("C07", "exploration", C07)
+	register("C15", "exploration", C15)
+	register("C14", "fault_enumeration", C14)
 }
